@@ -456,6 +456,38 @@ fn mixture_events(tr: &mut Tr, args: &Args, rng: &mut Rng) {
                 tr.ev(json!({"ev":"BinaryDiagram","case":name,"T":fs(t.to_reduced()),"npoints":np,"nstates":d.states.len(),"points":pts}));
             }
         }
+        // phase envelope at fixed composition: bubble-point line, dew-point line, spinodal line (continuation in temperature up to the critical point)
+        if rng.below(if args.thorough { 3 } else { 4 }) == 0 {
+            let x1 = *rng.pick(&[0.2, 0.5, 0.8]);
+            let z = arr1(&[x1, 1.0 - x1]);
+            let moles = Moles::from_reduced(z.clone());
+            let tmin = Temperature::from_reduced(tc_lo * 0.7);
+            let np = *rng.pick(&[6usize, 12]);
+            for kind in ["bubble", "dew", "spinodal"] {
+                let d = match kind {
+                    "bubble" => g(|| PhaseDiagram::bubble_point_line(&eos, &moles, tmin, np, None, (opts(), opts()))),
+                    "dew" => g(|| PhaseDiagram::dew_point_line(&eos, &moles, tmin, np, None, (opts(), opts()))),
+                    _ => g(|| PhaseDiagram::spinodal(&eos, &moles, tmin, np, None, opts())),
+                };
+                match d {
+                    Ok(d) => {
+                        let pts: Vec<Value> = d.states.iter().map(|s| {
+                            let t = s.vapor().temperature;
+                            let alone = match kind {
+                                "bubble" => Some(g(|| PhaseEquilibrium::bubble_point(&eos, t, &z, None, None, (opts(), opts())))),
+                                "dew" => Some(g(|| PhaseEquilibrium::dew_point(&eos, t, &z, None, None, (opts(), opts())))),
+                                _ => None,
+                            };
+                            let mut p = json!({"v": phase(s.vapor()), "l": phase(s.liquid())});
+                            if let Some(a) = alone { p["alone"] = eq2(&a); }
+                            p
+                        }).collect();
+                        tr.ev(json!({"ev":"EnvelopeLine","case":name,"kind":kind,"z":fv(z.iter()),"Tmin":fs(tmin.to_reduced()),"npoints":np,"ok":true,"points":pts}));
+                    }
+                    Err(e) => tr.ev(json!({"ev":"EnvelopeLine","case":name,"kind":kind,"z":fv(z.iter()),"Tmin":fs(tmin.to_reduced()),"npoints":np,"ok":false,"err":err_name(&e),"points":[]})),
+                }
+            }
+        }
     }
 }
 
@@ -488,6 +520,25 @@ fn lle_events(tr: &mut Tr, args: &Args, rng: &mut Rng) {
                 // any two-phase split of a binary at fixed (T, p) spans a tie line; require clearly different phases
                 if (xa[0] - xb[0]).abs() < 0.2 { tr.ev(json!({"ev":"LleSkip","case":name,"T":fs(tk),"why":"phases too similar"})); continue; }
                 let case = format!("lle:{}:{}K:{}bar", name, tk, pbar);
+                if pbar == 1.0 {
+                    // three-phase equilibrium at this temperature, started from the two liquid compositions
+                    let xi = (xa[0].min(xb[0]), xa[0].max(xb[0]));
+                    let h = g(|| PhaseEquilibrium::heteroazeotrope(&eos, t, xi, None, opts(), (opts(), opts())));
+                    let ev = match &h {
+                        Ok(h) => json!({"ev":"Hetero","case":case,"T":fs(tk),"x_init":fv([xi.0, xi.1].iter()),"ok":true,"v":phase(h.vapor()),"l1":phase(h.liquid1()),"l2":phase(h.liquid2())}),
+                        Err(e) => json!({"ev":"Hetero","case":case,"T":fs(tk),"x_init":fv([xi.0, xi.1].iter()),"ok":false,"err":err_name(e)}),
+                    };
+                    tr.ev(ev);
+                    if let Ok(h) = &h {
+                        // and at the pressure found, specified the other way round
+                        let ph = h.vapor().pressure(CT);
+                        let h2 = g(|| PhaseEquilibrium::heteroazeotrope(&eos, ph, xi, Some(t * 0.98), opts(), (opts(), opts())));
+                        if let Ok(h2) = &h2 {
+                            tr.ev(json!({"ev":"Hetero","case":format!("{}(p specified)", case),"T":fs(tk),"x_init":fv([xi.0, xi.1].iter()),"ok":true,"v":phase(h2.vapor()),"l1":phase(h2.liquid1()),"l2":phase(h2.liquid2()),
+                                "same_as":{"v":phase(h.vapor()),"l1":phase(h.liquid1()),"l2":phase(h.liquid2())}}));
+                        }
+                    }
+                }
                 for lam in [0.005, 0.01, 0.02, 0.1, 0.3, 0.5, 0.7, 0.9, 0.98, 0.99, 0.995] {
                     let z = &xa + &((&xb - &xa) * lam);
                     let zf = Moles::from_reduced(z.clone());
